@@ -17,7 +17,7 @@ ASSUMPTIONS = [
 FUNC = {"new", "ins", "del", "get", "size", "iter", "clone", "mkroot", "load", "rootsize"}
 
 PROPS = {
-    "C01": dict(profiles=[("map", 150, 1500)], tags=FUNC, checks=[], corr={}),
+    "C01": dict(profiles=[("map", 150, 1500), ("versions", 50, 400)], tags=FUNC, checks=[], corr={}),
     "C02": dict(profiles=[("versions", 80, 800), ("dual", 15, 150)], tags=FUNC | {"cursor"}, checks=[], corr={}),
     "C03": dict(profiles=[], tags={"durable"}, checks=[], corr={}, special="sched"),
     "C04": dict(profiles=[("canon", 120, 1200)], tags={"canon", "canon-height"}, checks=["canon"], corr={"only": {"mkroot", "height"}}),
